@@ -657,7 +657,7 @@ def impl_map(cases):
 
 
 def run(run):
-    ncases = 3000 if run.thorough else 260
+    ncases = 3000 if run.thorough else 220
     cases = load_corpus()
     run.count("corpus", len(cases))
     while len(cases) < ncases:
